@@ -66,6 +66,24 @@ func (c *zzShardCache) CacheReader(shard int) sliceio.Reader { c.reads++; return
 
 func zzCustomPartitioner(ctx context.Context, f frame.Frame, nshard int, shards []int) {}
 
+// zzMarkPartitioner returns partitioners that are closures of ONE function
+// literal (like the ones bigslice.Repartition builds) and differ only in the
+// captured id, which they report through shards[0].
+//go:noinline
+func zzMarkPartitioner(id int) bigslice.Partitioner {
+	return func(ctx context.Context, f frame.Frame, nshard int, shards []int) {
+		if len(shards) > 0 {
+			shards[0] = id
+		}
+	}
+}
+
+func zzPartitionerID(p bigslice.Partitioner) int {
+	out := []int{-1}
+	p(context.Background(), frame.Empty, 1, out)
+	return out[0]
+}
+
 var zzTyp1 = slicetype.New(reflect.TypeOf(int64(0)), reflect.TypeOf(int64(0)))
 
 func zzNShard(tag string) int {
@@ -270,8 +288,14 @@ func zzH_C08_shared() {
 		nc = zzNShard("nC")
 	}
 	a := zzMkSlice("a", na)
-	b := zzMkSlice("b", nb, bigslice.Dep{Slice: a, Shuffle: shB})
-	c := zzMkSlice("c", nc, bigslice.Dep{Slice: a, Shuffle: shC})
+	depB, depC := bigslice.Dep{Slice: a, Shuffle: shB}, bigslice.Dep{Slice: a, Shuffle: shC}
+	custom := shB && shC && zz.AnyBool("customPartitioners")
+	if custom {
+		// two repartitionings of the same slice with DIFFERENT functions
+		depB.Partitioner, depC.Partitioner = zzMarkPartitioner(101), zzMarkPartitioner(202)
+	}
+	b := zzMkSlice("b", nb, depB)
+	c := zzMkSlice("c", nc, depC)
 	d := zzMkSlice("d", nd, bigslice.Dep{Slice: b, Shuffle: true, Expand: true}, bigslice.Dep{Slice: c, Shuffle: true, Expand: true})
 	tasks, err := compile(zzInv(2), d, false)
 	zz.Assert(err == nil, "compilation succeeds")
@@ -282,7 +306,13 @@ func zzH_C08_shared() {
 	if shB && shC && nb != nc {
 		zz.Reach("shared slice with two partition counts")
 	}
-	if shB && shC && nb == nc {
+	if custom {
+		zz.Reach("two custom partitioners on one slice")
+		pb := tasks[0].Deps[0].Head.Deps[0].Head
+		pc := tasks[0].Deps[1].Head.Deps[0].Head
+		zz.Assert(zzPartitionerID(pb.Partitioner) == 101 && zzPartitionerID(pc.Partitioner) == 202, "each consumer's producers use that consumer's partitioner")
+	}
+	if shB && shC && nb == nc && !custom {
 		zz.Reach("shared slice compiled once")
 		// memoised: B's and C's tasks depend on the very same A tasks
 		zz.Assert(tasks[0].Deps[0].Head.Deps[0].Head == tasks[0].Deps[1].Head.Deps[0].Head, "a shared sub-slice with the same partition count is compiled once")
